@@ -306,8 +306,11 @@ def standard_check(ctx, spec):
         "trusted_base": KERNEL_TB + TIE_TB + spec.get("trusted_base", []),
     })
     ctx.assumptions += spec.get("assumptions", [])
+    ctx.cov["prove_wall_s"] = round(time.time() - ctx.t0, 2)
     # BUILD
+    t_b = time.time()
     okb, outb = ctx.harness_build([spec["bin"]])
+    ctx.cov["build_wall_s"] = round(time.time() - t_b, 2)
     if not okb:
         ctx.add_violation("harness_build.json", {
             "what": "the correspondence engine no longer builds against /repo's working tree",
@@ -340,7 +343,9 @@ def standard_check(ctx, spec):
         return ctx.finish()
     meta = json.load(open(cj))
     cases = meta.get("cases", [])
+    t_eval = time.time()
     results, errors = ctx.coq_eval(case_dir, meta["files"])
+    ctx.cov["coq_eval_wall_s"] = round(time.time() - t_eval, 2)
     if errors:
         problems.append("case evaluation failed: " + "; ".join(errors)[:3000])
     known = ctx.known_findings()
